@@ -94,6 +94,18 @@ class Fn:
             self._cfg = CFG(self)
         return self._cfg
 
+    def promoted_fn(self, n):
+        """pseudo-function for the n-th promoted constant body of this function"""
+        ps = self.j.get("promoted") or []
+        if n >= len(ps):
+            return None
+        if not hasattr(self, "_prom"):
+            self._prom = {}
+        if n not in self._prom:
+            self._prom[n] = Fn(self.prog, {"key": "%s::promoted[%d]" % (self.key, n), "kind": "Promoted",
+                                           "span": self.span, "body": ps[n]})
+        return self._prom[n]
+
 
 class Program:
     def __init__(self, path, config):
@@ -312,6 +324,10 @@ class CFG:
 #   ("rec", fnkey, local)                  cycle
 #   ("undef", fnkey, local)
 
+import re as _re
+_PROMOTED = _re.compile(r"::promoted\[(\d+)\]")
+
+
 def _const_text(o):
     return o["s"]
 
@@ -327,6 +343,11 @@ class VP:
         if k == "const":
             if "fn" in o:
                 return ("fnconst", o["fn"]["key"])
+            m = _PROMOTED.search(o["s"])
+            if m:
+                pf = fn.promoted_fn(int(m.group(1)))
+                if pf is not None:
+                    return self.local(pf, 0)
             return ("const", o["s"])
         return ("other", o.get("s", "?"))
 
@@ -544,7 +565,8 @@ def _has_rec(t):
 def walk(t):
     """pre-order walk over all sub-terms"""
     if isinstance(t, tuple):
-        yield t
+        if t and isinstance(t[0], str):
+            yield t
         for x in t:
             if isinstance(x, tuple):
                 for y in walk(x):
